@@ -26,6 +26,8 @@ type UnitResult struct {
 	Err         string
 	fn          *ssa.Function
 	con         *FuncContract
+	entry       *tableEntry
+	ctorKeys    map[string]string // Iface constructor name (box_k) -> Go type string
 }
 
 // setupParams creates the symbolic inputs of a function under verification.
@@ -236,6 +238,10 @@ func (e *Enc) finish(ur *UnitResult, opt runOpts) {
 		}
 	}
 	e.addAxioms()
+	ur.ctorKeys = map[string]string{}
+	for _, c := range e.tb.ifaceCtors {
+		ur.ctorKeys[fmt.Sprintf("box_%d", c.id)] = c.key
+	}
 	ur.Queries = e.queries
 	ur.Notes = e.notes
 	for a := range e.assumptionLog {
@@ -540,6 +546,7 @@ func VerifyEntry(L *Loaded, t *tableEntry, tab *FuncContract, own *FuncContract,
 	e.safety = len(con.safetyProps) > 0 || opt.sweep
 	e.topConPkg = con.pkg
 	e.entry = t
+	ur.entry = t
 	e.runBody(fn, con, ur)
 	ur.EncodeS = time.Since(t0).Seconds()
 	e.finish(ur, opt)
@@ -608,6 +615,7 @@ func (e *Enc) entryPreconditions(fn *ssa.Function, args []Val, st *State) {
 			if size == nil {
 				continue
 			}
+			e.stackInputs(args[i], p.Type(), st, size)
 			switch t.kind {
 			case "static":
 				if t.args >= 0 {
@@ -675,6 +683,54 @@ func (e *Enc) bindFreeVars(fn *ssa.Function) {
 			if a.sort == RefSort && b.sort == RefSort {
 				e.assume(e.tb.True(), e.tb.Not(e.tb.Eq(a, b)))
 			}
+		}
+	}
+}
+
+// stackInputs registers the first argument slots of a stack parameter as model-relevant inputs (for replay).
+func (e *Enc) stackInputs(v Val, ty types.Type, st *State, size *Term) {
+	tb := e.tb
+	s, u := e.structOf(ty)
+	var storage, offs *Term
+	var stType types.Type
+	for i := 0; i < u.NumFields(); i++ {
+		switch u.Field(i).Name() {
+		case "storage":
+			storage = tb.Field(s, i, v.t())
+			stType = u.Field(i).Type().Underlying().(*types.Pointer).Elem()
+		case "offs":
+			offs = tb.Field(s, i, v.t())
+		}
+	}
+	if storage == nil || offs == nil {
+		return
+	}
+	ss, su := e.structOf(stType)
+	data := tb.Select(e.reg(st, e.fieldReg(ss, su, 0)), storage)
+	sl, ok := su.Field(0).Type().Underlying().(*types.Slice)
+	if !ok {
+		return
+	}
+	e.inputs = append(e.inputs, NamedTerm{"stack.size", size})
+	var scalars []types.Type
+	if pkg := e.L.typesPkg(modPath + "/value"); pkg != nil {
+		for _, n := range []string{"Int", "Float", "Bool", "String"} {
+			if o := pkg.Scope().Lookup(n); o != nil {
+				scalars = append(scalars, o.Type())
+			}
+		}
+	}
+	for k := 0; k < 4; k++ {
+		ad := &Addr{elem: true, ref: tb.SRef(data), idx: tb.Add(tb.SOff(data), tb.Add(offs, tb.Int(int64(k)))), root: sl.Elem()}
+		slot := e.rootRead(st, ad)
+		e.inputs = append(e.inputs, NamedTerm{fmt.Sprintf("stack[%d]", k), slot})
+		// replay hint: counterexamples with scalar arguments can be turned into programs
+		if slot.sort == "Iface" && len(scalars) > 0 {
+			var alts []*Term
+			for _, t := range scalars {
+				alts = append(alts, tb.IsBox(e.typeKey(t), e.sortOf(t), slot))
+			}
+			e.hints = append(e.hints, tb.Or(alts...))
 		}
 	}
 }
